@@ -15,7 +15,7 @@ PROP = dict(
     engines=[dict(
         name="rawvec", classify=classify_raw,
         quick=dict(cases=4000, shards=4, profiles=["debug"], extra=["--no-faults"]),
-        thorough=dict(cases=160000, shards=16, profiles=["debug"], extra=["--no-faults"]),
+        thorough=dict(cases=48000, shards=16, profiles=["debug"], extra=["--no-faults"]),
     )],
     extra_targets=["Props/C03raw.vo"],
     rule="(raw half) see tools/propdefs/C04.py; write() regimes are tagged write:<T truncated><E expanded><N new data>"
